@@ -6,6 +6,7 @@ import Driver.Spec
 import RapidModel.Minimize
 import RapidModel.Persist
 import RapidModel.Passes
+import RapidModel.Float
 
 namespace Rapid.Driver
 open Rapid
@@ -126,6 +127,13 @@ def runPrim (args : List String) (ws : List UInt64) : String :=
     | ["index", n, b] => (index ft n.toNat! (b == "true") fuel fun i => .ret (.int i), fun v => toString (valInt v))
     | ["die", wts] =>
       (dieRoll ft ((wts.splitOn ",").map String.toNat!) fuel fun i => .ret (.int i), fun v => toString (valInt v))
+    | ["float", w, lo, hi] =>
+      let f := if w == "32" then fmt32 else fmt64
+      (floatRange ft f (UInt64.ofNat lo.toNat!) (UInt64.ofNat hi.toNat!) fuel fun sg e si sf =>
+          .ret (.cons (.bool sg) (.cons (.int e) (.cons (uv si) (.cons (uv sf) (uv (f.fromParts sg e si sf)))))),
+        fun v => match v with
+          | .cons (.bool sg) (.cons (.int e) (.cons (.int si) (.cons (.int sf) (.int b)))) => s!"{b2s sg},{e},{si},{sf},{b}"
+          | _ => "?")
     | _ => (.ret .nil, fun _ => "?")
   let o := p.run (.buf ws) TS.fresh
   let res := match o.res with
